@@ -1,5 +1,6 @@
 import Model.Wire
 import Gen.C12
+import Proofs.WireTyped
 
 /-! # C12 — property theorems (wire encodings round-trip, hashes stable, decoders total) -/
 namespace Spec.C12
@@ -38,5 +39,170 @@ theorem golden_empty_data_bytes : ({} : Data).encode = Gen.C12.emptyDataBytes :=
 theorem golden_empty_commitment : emptyDataHash = Gen.C12.emptyDataCommitment := by decide +kernel
 /-- the constant `dataHashForEmptyTxs` compiled into the node is the commitment of the empty data -/
 theorem golden_empty_constant : emptyDataHash = Gen.C12.dataHashForEmptyTxs := by decide +kernel
+
+/-! ## 1. Varints (`protowire.AppendVarint` / `ConsumeVarint`) -/
+
+/-- every `uint64` round-trips, whatever follows it -/
+theorem varint_roundtrip (n : Nat) (rest : Bytes) (h : n < 2 ^ 64) :
+    decVarint (encVarint n ++ rest) = some (n, rest) := decVarint_encVarint n rest h
+example : decVarint (encVarint (2 ^ 64 - 1) ++ [7, 8]) = some (2 ^ 64 - 1, [7, 8]) :=
+  varint_roundtrip _ _ (by decide)
+
+theorem varint_length (n : Nat) : (encVarint n).length ≤ 10 := encVarint_length_le n
+example : (encVarint (2 ^ 64 - 1)).length = 10 := by decide
+
+/-- what `ConsumeVarint` accepts is a `uint64`, it consumes at least one byte, and the canonical
+encoding of the value is not longer than what was consumed -/
+theorem varint_decoded_in_range {bs : Bytes} {n : Nat} {r : Bytes} (h : decVarint bs = some (n, r)) :
+    n < 2 ^ 64 ∧ r.length < bs.length ∧ (encVarint n).length + r.length ≤ bs.length :=
+  ⟨(decVarint_bound h).1, (decVarint_bound h).2, decVarint_enc_length h⟩
+example : decVarint [0x80, 0x00, 9] = some (0, [9]) := by decide   -- a non-canonical (padded) zero
+
+/-! ## 2. Raw field layer -/
+
+/-- a list of well-formed fields (number in `[1, 2^29-1]`, varint `< 2^64`, fixed widths exact,
+payload length `< 2^64`) is parsed back exactly -/
+theorem raw_roundtrip (fs : List Field) (h : ∀ f ∈ fs, WF f) : decFields (encFields fs) = some fs :=
+  decFields_encFields fs h
+example : decFields (encFields [(1, .varint 300), (536870911, .len [1, 2]), (7, .i64 (List.replicate 8 9)),
+    (1, .i32 [1, 2, 3, 4]), (2, .len [])]) =
+    some [(1, .varint 300), (536870911, .len [1, 2]), (7, .i64 (List.replicate 8 9)), (1, .i32 [1, 2, 3, 4]), (2, .len [])] :=
+  raw_roundtrip _ (by decide)
+
+/-- whatever the parser accepts is well formed and is a fixed point of parse ∘ print -/
+theorem raw_decoded_wf {bs : Bytes} {fs : List Field} (h : decFields bs = some fs) :
+    (∀ f ∈ fs, WF f) ∧ (encFields fs).length ≤ bs.length ∧ decFields (encFields fs) = some fs :=
+  ⟨decFields_wf h, decFields_length h, decFields_canon h⟩
+-- a group (wire types 3/4) is consumed and dropped, a padded varint is normalised:
+example : decFields [0x0b, 0x08, 0x01, 0x0c, 0x10, 0x81, 0x00] = some [(2, .varint 1)] := by decide
+
+/-! ## 3. Typed round trips, for all values in the Go types' ranges -/
+
+theorem version_roundtrip (v : Version) (h : v.WF) : Version.decode v.encode = some v :=
+  Version.decode_encode h
+example : Version.decode (Version.encode { block := 2 ^ 64 - 1, app := 0 }) = some { block := 2 ^ 64 - 1, app := 0 } :=
+  version_roundtrip _ (by decide)
+
+theorem metadata_roundtrip (m : Metadata) (h : m.WF) : Metadata.decode m.encode = some m :=
+  Metadata.decode_encode h
+
+theorem header_roundtrip (h : Header) (hw : h.WF) : Header.decode h.encode = some h :=
+  Header.decode_encode hw
+example : gHeader.WF := by decide +kernel
+example : ({} : Header).WF := by decide +kernel
+
+theorem data_roundtrip (d : Data) (hw : d.WF) : Data.decode d.encode = some d :=
+  Data.decode_encode hw
+example : gData.WF := by decide +kernel
+example : ({ metadata := some {}, txs := [[], []] } : Data).WF := by decide +kernel   -- empty metadata ≠ nil metadata
+
+/-- full statement for signed headers: **false** of the current code -/
+def C12_full_signed_header_roundtrip : Prop :=
+  ∀ (keyOk : Bytes → Bool) (sh : SignedHeader), sh.WF →
+    (sh.signer.pubKey ≠ [] → keyOk sh.signer.pubKey = true) →
+    SignedHeader.decode keyOk sh.encode = some sh
+
+/-- finding `C12/roundtrip/signer-address-without-key-dropped` -/
+def addrOnlyHeader : SignedHeader := { header := gHeader, signer := { address := Gen.C12.goldenAddr, pubKey := [] } }
+
+theorem C12_full_signed_header_roundtrip_fails : ¬ C12_full_signed_header_roundtrip := by
+  intro h
+  exact absurd (h (fun _ => true) addrOnlyHeader (by decide +kernel) (by decide +kernel)) (by decide +kernel)
+
+/-- what holds: the value comes back with exactly the canonicalisation `FromProto` performs
+(`Signer.canon`: a signer without public key is replaced by the zero signer) -/
+theorem signed_header_roundtrip_partial (keyOk : Bytes → Bool) (sh : SignedHeader) (hw : sh.WF)
+    (hk : sh.signer.pubKey ≠ [] → keyOk sh.signer.pubKey = true) :
+    SignedHeader.decode keyOk sh.encode = some sh.canon' := SignedHeader.decode_encode keyOk hw hk
+example : gSignedHeader.WF ∧ gSignedHeader.signer.pubKey ≠ [] := by decide +kernel
+
+/-- with a key (every header a node signs or accepts) nothing is lost -/
+theorem signed_header_roundtrip_with_key (keyOk : Bytes → Bool) (sh : SignedHeader) (hw : sh.WF)
+    (hne : sh.signer.pubKey ≠ []) (hk : keyOk sh.signer.pubKey = true) :
+    SignedHeader.decode keyOk sh.encode = some sh := by
+  rw [signed_header_roundtrip_partial keyOk sh hw (fun _ => hk)]
+  simp [SignedHeader.canon', Signer.canon, hne]
+
+/-- … and without key and address (an unsigned header as a full node stores it) as well -/
+theorem signed_header_roundtrip_unsigned (keyOk : Bytes → Bool) (sh : SignedHeader) (hw : sh.WF)
+    (hs : sh.signer = {}) : SignedHeader.decode keyOk sh.encode = some sh := by
+  rw [signed_header_roundtrip_partial keyOk sh hw (by simp [hs])]
+  obtain ⟨h, sg, s⟩ := sh
+  simp only at hs; subst hs
+  simp [SignedHeader.canon', Signer.canon]
+
+def C12_full_signed_data_roundtrip : Prop :=
+  ∀ (keyOk : Bytes → Bool) (sd : SignedData), sd.WF →
+    (sd.signer.pubKey ≠ [] → keyOk sd.signer.pubKey = true) →
+    SignedData.decode keyOk sd.encode = some sd
+
+def addrOnlyData : SignedData := { data := gData, signer := { address := Gen.C12.goldenAddr, pubKey := [] } }
+
+theorem C12_full_signed_data_roundtrip_fails : ¬ C12_full_signed_data_roundtrip := by
+  intro h
+  exact absurd (h (fun _ => true) addrOnlyData (by decide +kernel) (by decide +kernel)) (by decide +kernel)
+
+theorem signed_data_roundtrip_partial (keyOk : Bytes → Bool) (sd : SignedData) (hw : sd.WF)
+    (hk : sd.signer.pubKey ≠ [] → keyOk sd.signer.pubKey = true) :
+    SignedData.decode keyOk sd.encode = some sd.canon' := SignedData.decode_encode keyOk hw hk
+example : gSignedData.WF ∧ gSignedData.signer.pubKey ≠ [] := by decide +kernel
+
+theorem signed_data_roundtrip_with_key (keyOk : Bytes → Bool) (sd : SignedData) (hw : sd.WF)
+    (hne : sd.signer.pubKey ≠ []) (hk : keyOk sd.signer.pubKey = true) :
+    SignedData.decode keyOk sd.encode = some sd := by
+  rw [signed_data_roundtrip_partial keyOk sd hw (fun _ => hk)]
+  simp [SignedData.canon', Signer.canon, hne]
+
+/-- the key parse is the only thing that can reject encoder output: a key that does not parse is an error -/
+example : SignedHeader.decode (fun _ => false) gSignedHeader.encode = none := by decide +kernel
+
+/-! ## 4. Hashes, commitment, signature payload -/
+
+/-- the DA commitment depends on the ordered transaction list only (the converse — different
+lists give different commitments — is collision resistance of SHA-256 and is not claimed) -/
+theorem commitment_ignores_metadata (d : Data) (m : Option Metadata) :
+    d.daCommitment = ({ d with metadata := m } : Data).daCommitment := rfl
+
+theorem commitment_txs_only (d d' : Data) (h : d.txs = d'.txs) : d.daCommitment = d'.daCommitment := by
+  simp [Data.daCommitment, h]
+example : gData.daCommitment = ({ txs := gData.txs } : Data).daCommitment ∧ gData.hash ≠ gData.daCommitment := by
+  decide +kernel
+/-- the order does matter to the model -/
+example : ({ txs := [[1], [2]] } : Data).encode ≠ ({ txs := [[2], [1]] } : Data).encode := by decide
+
+theorem header_hash_roundtrip (h : Header) (hw : h.WF) :
+    (Header.decode h.encode).map Header.hash = some h.hash := by rw [header_roundtrip h hw]; rfl
+
+theorem data_hash_roundtrip (d : Data) (hw : d.WF) :
+    (Data.decode d.encode).map (fun d' => (d'.hash, d'.daCommitment)) = some (d.hash, d.daCommitment) := by
+  rw [data_roundtrip d hw]; rfl
+
+/-- The signed payload of a header is `Header.encode` (`SignedHeader.Header.MarshalBinary`), the
+verification key is the signer's public key.  Both, and the signature, survive the round trip, so
+any verification predicate gives the same verdict before and after (also in the address-only case
+of the finding, where only the address is lost). -/
+theorem signed_header_payload_preserved (keyOk : Bytes → Bool) (sh : SignedHeader) (hw : sh.WF)
+    (hk : sh.signer.pubKey ≠ [] → keyOk sh.signer.pubKey = true) :
+    ∃ sh', SignedHeader.decode keyOk sh.encode = some sh' ∧
+      sh'.header = sh.header ∧ sh'.header.encode = sh.header.encode ∧ sh'.header.hash = sh.header.hash ∧
+      sh'.signature = sh.signature ∧ sh'.signer.pubKey = sh.signer.pubKey ∧
+      ∀ verify : Bytes → Bytes → Bytes → Bool,
+        verify sh'.signer.pubKey sh'.header.encode sh'.signature =
+        verify sh.signer.pubKey sh.header.encode sh.signature :=
+  ⟨sh.canon', signed_header_roundtrip_partial keyOk sh hw hk, rfl, rfl, rfl, rfl,
+    Signer.canon_pubKey _, fun verify => by simp [SignedHeader.canon', Signer.canon_pubKey]⟩
+
+/-- same for signed data: the payload is `Data.encode` (`SignedData.Data.MarshalBinary`) -/
+theorem signed_data_payload_preserved (keyOk : Bytes → Bool) (sd : SignedData) (hw : sd.WF)
+    (hk : sd.signer.pubKey ≠ [] → keyOk sd.signer.pubKey = true) :
+    ∃ sd', SignedData.decode keyOk sd.encode = some sd' ∧
+      sd'.data = sd.data ∧ sd'.data.encode = sd.data.encode ∧ sd'.data.hash = sd.data.hash ∧
+      sd'.data.daCommitment = sd.data.daCommitment ∧
+      sd'.signature = sd.signature ∧ sd'.signer.pubKey = sd.signer.pubKey ∧
+      ∀ verify : Bytes → Bytes → Bytes → Bool,
+        verify sd'.signer.pubKey sd'.data.encode sd'.signature =
+        verify sd.signer.pubKey sd.data.encode sd.signature :=
+  ⟨sd.canon', signed_data_roundtrip_partial keyOk sd hw hk, rfl, rfl, rfl, rfl, rfl,
+    Signer.canon_pubKey _, fun verify => by simp [SignedData.canon', Signer.canon_pubKey]⟩
 
 end Spec.C12
